@@ -495,9 +495,10 @@ def rule_OR2_gatekeeper(ctx, tier):
     _atomic_store_of(ctx, rr, f, "last_known_block_height", (4, 0), "Gatekeeper::fbc")
     rem = sites_containing(f, "HashMap", "::remove")
     brm = sites(f, DBM + "batch_remove_users")
-    go = sites(f, GK + "get_outdated_users")
+    SEL = "outdated_users_in"  # the selection of outdated users (takes the locked map and the height)
+    go = sites(f, GK + SEL)
     if not rem or not brm or not go:
-        rr.fail("g:shape", "Gatekeeper::filtered_block_connected: missing get_outdated_users / HashMap::remove / batch_remove_users (%d/%d/%d)" % (len(go), len(rem), len(brm)), where=f.span)
+        rr.fail("g:shape", "Gatekeeper::filtered_block_connected: missing %s / HashMap::remove / batch_remove_users (%d/%d/%d)" % (SEL, len(go), len(rem), len(brm)), where=f.span)
         return rr
     for r in rem:
         if always_reaches(f, f.succ(r), brm):
@@ -505,21 +506,22 @@ def rule_OR2_gatekeeper(ctx, tier):
         else:
             rr.fail("g:db-delete-skipped", "a user can be removed from memory on a path that never deletes it (and, by cascade, its appointments and trackers) from the database", where=f.line_of(r))
         a = arg_origin(ctx, f, r, 1)
-        if not has_call(a, "get_outdated_users"):
-            rr.fail("g:removes-other-users", "the user removed from memory (`%s`) is not drawn from get_outdated_users" % og.show(a)[:100], where=f.line_of(r))
+        if not has_call(a, SEL):
+            rr.fail("g:removes-other-users", "the user removed from memory (`%s`) is not drawn from the outdated-user selection" % og.show(a)[:100], where=f.line_of(r))
         else:
             rr.ok("removed users = outdated users")
     for bb in brm:
         a = arg_origin(ctx, f, bb, 1)
-        if has_call(a, "get_outdated_users"):
+        if has_call(a, SEL):
             rr.ok("batch_remove_users(outdated users)")
         else:
             rr.fail("g:db-delete-arg", "batch_remove_users is fed `%s`" % og.show(a)[:100], where=f.line_of(bb))
     for bb in go:
-        if arg_origin(ctx, f, bb, 1) == ("param", f.id, 4):
-            rr.ok("get_outdated_users(this block's height)")
+        hts = [arg_origin(ctx, f, bb, i) for i in range(1, len(f.term(bb).get("args", [])))]
+        if ("param", f.id, 4) in hts:
+            rr.ok("outdated users selected at this block's height")
         else:
-            rr.fail("g:outdated-height", "get_outdated_users is evaluated at `%s`, not at the connected block's height" % og.show(arg_origin(ctx, f, bb, 1)), where=f.line_of(bb))
+            rr.fail("g:outdated-height", "the outdated users are selected at `%s`, not at the connected block's height" % " / ".join(og.show(h)[:60] for h in hts), where=f.line_of(bb))
     d = P.require(G_BD)
     _atomic_store_of(ctx, rr, d, "last_known_block_height", (3, 1), "Gatekeeper::block_disconnected")
     rr.require_floor(6, "OR2g instances")
